@@ -1,317 +1,35 @@
 ----------------------------- MODULE ExcelReader -----------------------------
 (***************************************************************************)
-(* C15 - pmutt.io.excel.read_excel: "one record per data row, in row       *)
-(* order, containing exactly the non-empty cells of that row; ordinary     *)
-(* columns pass through under their trimmed header, the documented special *)
-(* headers build the composition dictionary, the ordered vib_wavenumbers / *)
-(* rot_temperatures lists, list and dictionary fields, the NASA arrays and *)
-(* the model presets; no value leaks between rows; empty cells never       *)
-(* appear".                                                                *)
-(*                                                                         *)
-(* Texts (headers, string cells, keys, class names) are sequences of       *)
-(* character codes (Text.tla); literals live in the generated module       *)
-(* ExcelTokens.  Numbers are normalised Dec pairs <<m, e>> and are only    *)
-(* ever compared for equality (the reader passes cells through).           *)
-(*                                                                         *)
-(* A sheet is [headers |-> Seq(text), rows |-> Seq(Seq(Cell))]; a Cell is  *)
-(* [t |-> "e" | "n" | "s", v |-> <<>> | <<m, e>> | text].  A record is a   *)
-(* set of <<key, value>> pairs; values are  "n"/"s" scalars (strings       *)
-(* trimmed), "l" lists, "d" dictionaries (sets of <<key, scalar>>), "v"    *)
-(* 7-vectors and "c" classes (qualified name).                             *)
-(*                                                                         *)
-(* REQUIRED RESULT  Expected(sheet)[r] = ExpectedRow(DocClasses, row r):   *)
-(* defined declaratively from row r alone - the documented header forms    *)
-(* (Rules / DocClass) decide what each non-empty cell contributes.         *)
-(* IMPLEMENTATION-SHAPED READER: the row loop BeginRow / Cell / EndRow     *)
-(* with its loop-carried state `rec`, dispatching on the substring chain   *)
-(* (ImplClass) applied to the column names as pandas delivers them         *)
-(* (repeated headers get ".k").  TLC checks that the loop refines the      *)
-(* requirement on every sheet of the configuration.                        *)
-(*                                                                         *)
-(* Readings taken where the property text is silent (narrower one):        *)
-(*  - documented header forms are exactly the ones of Rules below;         *)
-(*    "elements.X" is accepted next to "element.X" (the repository's own   *)
-(*    workbooks use it); names inside headers (ordinary headers, element   *)
-(*    symbols, list/dict names and keys) contain no special token of the   *)
-(*    reader and are not keys that special columns produce;                *)
-(*  - a sheet has formula or element columns, not both; at most one        *)
-(*    formula / statmech_model / <mode>_model column;                      *)
-(*  - model cells hold names of classes of pmutt.statmech.<mode> (the      *)
-(*    module each setter's message points to) or "emptymode" in any case;  *)
-(*    statmech_model cells hold a preset name in any case;                 *)
-(*  - the preset's informational entries 'required' / 'optional' are not   *)
-(*    part of the record (the driver's projection drops them);             *)
-(*  - an entirely empty row is a data row (record {}), but the last row    *)
-(*    of a sheet is not entirely empty (xlsx cannot represent that);       *)
-(*  - vib_outcar and atoms need files and are outside the quantifier.      *)
+(* C15 - the design model: pmutt.io.excel.read_excel as a row loop.        *)
+(* Open (pandas delivers the frame) / BeginRow / Cell(col) / EndRow with   *)
+(* the loop-carried state made explicit: `rec` is the record under         *)
+(* construction (thermo_data).  Cell dispatches on the class the           *)
+(* implementation's substring chain gives the pandas column name           *)
+(* (ExcelRecords!ImplClass) and updates `rec` the way the setters do       *)
+(* (create-or-append, create-or-set, presets fill unassigned keys).        *)
+(* TLC checks on every sheet of the configuration that the loop refines    *)
+(* the declarative requirement ExcelRecords!Expected:                      *)
+(*   OneRecordPerRow, RowOrder, Refines, CarriedEmpty + NoLeak,            *)
+(*   NoEmptyCells, NoRaise, DispatchDisjoint, ChainAgrees.                 *)
+(* Variants that are expected to be rejected: "hoist" (record created once *)
+(* outside the loop), "nuclelec" (nucl_model looked up among the           *)
+(* electronic models - what pmutt/io/excel.py:set_nucl_model does),        *)
+(* "presetover" (a preset overwrites assigned keys).                       *)
 (***************************************************************************)
-EXTENDS Text, ExcelTokens, FiniteSets, TLC
-
-\* ------------------------------------------------------------------ text helpers
-RECURSIVE SplitOn(_, _)
-SplitOn(s, d) ==                                   \* python  s.split(d)
-   IF \E i \in 1..Len(s) : s[i] = d
-   THEN LET i == CHOOSE i \in 1..Len(s) : s[i] = d /\ \A j \in 1..(i - 1) : s[j] # d
-        IN <<SubSeq(s, 1, i - 1)>> \o SplitOn(SubSeq(s, i + 1, Len(s)), d)
-   ELSE <<s>>
-Pieces(t) == SplitOn(t, T_dot)
-LowerC(ch) == IF IsUpperC(ch) THEN ch + 32 ELSE ch
-Lower(s) == [i \in 1..Len(s) |-> LowerC(s[i])]
-RECURSIVE NatDigits(_)
-NatDigits(n) == IF n < 10 THEN <<48 + n>> ELSE Append(NatDigits(n \div 10), 48 + (n % 10))
-RECURSIVE RemoveAll(_, _)
-RemoveAll(s, pat) ==                               \* python  s.replace(pat, '')
-   IF Len(s) = 0 THEN <<>>
-   ELSE IF MatchAt(s, pat, 1) THEN RemoveAll(SubSeq(s, Len(pat) + 1, Len(s)), pat)
-   ELSE <<s[1]>> \o RemoveAll(Tail(s), pat)
-LastIndexOf(s, ch) == IF \E i \in 1..Len(s) : s[i] = ch
-                      THEN CHOOSE i \in 1..Len(s) : s[i] = ch /\ \A j \in (i + 1)..Len(s) : s[j] # ch
-                      ELSE 0
-SortedSeq(S) == [i \in 1..Cardinality(S) |-> CHOOSE x \in S : Cardinality({y \in S : y < x}) = i - 1]
-
-\* ------------------------------------------------------------------ numbers
-RECURSIVE DecNorm(_, _)
-DecNorm(m, e) == IF m = 0 THEN <<0, 0>>                     \* what core.to_dec prints: 9 digits
-                 ELSE IF m < 100000000 /\ m > -100000000 THEN DecNorm(m * 10, e - 1)
-                 ELSE <<m, e>>
-DecOfInt(n) == DecNorm(n, 0)
-
-\* ------------------------------------------------------------------ values
-EmptyCell == [t |-> "e", v |-> <<>>]
-Num(d) == [t |-> "n", v |-> d]
-Str(s) == [t |-> "s", v |-> s]
-ListV(s) == [t |-> "l", v |-> s]
-DictV(ps) == [t |-> "d", v |-> ps]
-VecV(s) == [t |-> "v", v |-> s]
-ClsV(q) == [t |-> "c", v |-> q]
-ZeroN == Num(<<0, 0>>)
-Scalar(cell) == IF cell.t = "s" THEN Str(Trim(cell.v)) ELSE cell
-IsEmpty(cell) == cell.t = "e"
-
-\* records and dictionaries: sets of <<key, value>>
-Has(rec, k) == \E p \in rec : p[1] = k
-Get(rec, k) == (CHOOSE p \in rec : p[1] = k)[2]
-Put(rec, k, v) == {p \in rec : p[1] # k} \cup {<<k, v>>}
-Keys(rec) == {p[1] : p \in rec}
-Functional(rec) == \A p \in rec, q \in rec : p[1] = q[1] => p = q
-
-\* ------------------------------------------------------------------ formulas
-\* items  [A-Z][a-z]*  followed by an optional count; repeated symbols are summed
-\* (the regular expression of pmutt.parse_formula; set_formula documents H2O).
-RECURSIVE TakeLower(_, _)
-TakeLower(s, i) == IF i <= Len(s) /\ IsLowerC(s[i]) THEN <<s[i]>> \o TakeLower(s, i + 1) ELSE <<>>
-RECURSIVE TakeDigits(_, _)
-TakeDigits(s, i) == IF i <= Len(s) /\ IsDigitC(s[i]) THEN <<s[i]>> \o TakeDigits(s, i + 1) ELSE <<>>
-RECURSIVE FormulaItems(_, _)
-FormulaItems(s, i) ==
-   IF i > Len(s) THEN <<>>
-   ELSE IF IsUpperC(s[i]) THEN
-          LET low == TakeLower(s, i + 1)
-              dig == TakeDigits(s, i + 1 + Len(low))
-          IN <<[sym |-> <<s[i]>> \o low, n |-> IF dig = <<>> THEN 1 ELSE DigitsToInt(dig)]>>
-             \o FormulaItems(s, i + 1 + Len(low) + Len(dig))
-   ELSE FormulaItems(s, i + 1)
-FormulaPairs(s) ==
-   LET items == FormulaItems(s, 1)
-       syms == {items[j].sym : j \in 1..Len(items)}
-       RECURSIVE Sum(_, _)
-       Sum(sym, j) == IF j = 0 THEN 0 ELSE Sum(sym, j - 1) + (IF items[j].sym = sym THEN items[j].n ELSE 0)
-   IN {<<sym, Num(DecOfInt(Sum(sym, Len(items))))>> : sym \in syms}
-FormulaWF(s) ==            \* every character belongs to an item, counts 1..999 without leading zero
-   /\ Len(s) > 0 /\ IsUpperC(s[1])
-   /\ \A i \in 1..Len(s) : IsUpperC(s[i]) \/ IsLowerC(s[i]) \/ IsDigitC(s[i])
-   /\ \A i \in 1..Len(s) : IsDigitC(s[i]) /\ ~IsDigitC(s[i - 1]) => s[i] # 48
-   /\ \A i \in 1..Len(s) : ~(\A j \in i..(i + 3) : j <= Len(s) /\ IsDigitC(s[j]))
-
-\* ------------------------------------------------------------------ header classes
-HC(cls, a, b) == [cls |-> cls, a |-> a, b |-> b]
-ListDot == T_list \o <<T_dot>>
-DictDot == T_dict \o <<T_dot>>
-ModeKeys == {T_trans_model, T_vib_model, T_rot_model, T_elec_model, T_nucl_model}
-SpecialTokens == {T_Unnamed, T_element, T_formula, T_atoms, T_statmech_model, T_vib_wavenumber,
-                  T_vib_outcar, T_rot_temperature, T_nasa, ListDot, DictDot} \cup ModeKeys
-HasToken(t) == \E k \in SpecialTokens : Contains(t, k)
-\* keys that special columns write into the record
-ReservedKeys == {T_elements, T_vib_wavenumbers, T_rot_temperatures, T_a_low, T_a_high, T_model}
-                \cup ModeKeys
-NamePart(x) == Len(x) > 0 /\ ~HasToken(x) /\ x = Trim(x)
-
-\* the documented forms: which rules apply to a trimmed header text
-Rules(t) ==
-   LET p == Pieces(t) IN
-      (IF Len(p) = 2 /\ p[1] \in {T_element, T_elements} /\ NamePart(p[2]) THEN {"element"} ELSE {})
- \cup (IF t = T_formula THEN {"formula"} ELSE {})
- \cup (IF t = T_statmech_model THEN {"statmech"} ELSE {})
- \cup (IF t \in ModeKeys THEN {"mode"} ELSE {})
- \cup (IF t = T_vib_wavenumber THEN {"vib"} ELSE {})
- \cup (IF t = T_rot_temperature THEN {"rot"} ELSE {})
- \cup (IF Len(p) = 3 /\ p[1] = T_nasa /\ p[2] = T_a_low /\ Len(p[3]) = 1 /\ p[3][1] \in 48..54
-       THEN {"alow"} ELSE {})
- \cup (IF Len(p) = 3 /\ p[1] = T_nasa /\ p[2] = T_a_high /\ Len(p[3]) = 1 /\ p[3][1] \in 48..54
-       THEN {"ahigh"} ELSE {})
- \cup (IF Len(p) \in {2, 3} /\ p[1] = T_list /\ NamePart(p[2])
-          /\ (Len(p) = 3 => AllDigits(p[3]) /\ Len(p[3]) <= 3) THEN {"list"} ELSE {})
- \cup (IF Len(p) = 3 /\ p[1] = T_dict /\ NamePart(p[2]) /\ NamePart(p[3]) THEN {"dict"} ELSE {})
- \cup (IF Len(t) > 0 /\ ~HasToken(t) THEN {"ordinary"} ELSE {})
-
-DocClass(t) ==
-   LET p == Pieces(t)  r == Rules(t) IN
-   IF r = {"element"} THEN HC("element", p[2], <<>>)
-   ELSE IF r = {"formula"} THEN HC("formula", <<>>, <<>>)
-   ELSE IF r = {"statmech"} THEN HC("statmech", <<>>, <<>>)
-   ELSE IF r = {"mode"} THEN HC("mode", t, <<>>)
-   ELSE IF r = {"vib"} THEN HC("vib", <<>>, <<>>)
-   ELSE IF r = {"rot"} THEN HC("rot", <<>>, <<>>)
-   ELSE IF r = {"alow"} THEN HC("alow", <<>>, <<p[3][1] - 48>>)
-   ELSE IF r = {"ahigh"} THEN HC("ahigh", <<>>, <<p[3][1] - 48>>)
-   ELSE IF r = {"list"} THEN HC("list", p[2], <<>>)
-   ELSE IF r = {"dict"} THEN HC("dict", p[2], p[3])
-   ELSE IF r = {"ordinary"} THEN HC("ordinary", t, <<>>)
-   ELSE HC("outside", t, <<>>)            \* no documented form, or more than one
-
-\* the implementation's chain of substring tests (pmutt/io/excel.py l.107-186), applied to
-\* the stripped column name pandas delivers
-ImplClass(t) ==
-   LET p == Pieces(t)  last == p[Len(p)] IN
-   IF Contains(t, T_Unnamed) THEN HC("unnamed", <<>>, <<>>)
-   ELSE IF Contains(t, T_element) THEN HC("element", last, <<>>)
-   ELSE IF Contains(t, T_formula) THEN HC("formula", <<>>, <<>>)
-   ELSE IF Contains(t, T_atoms) THEN HC("atoms", <<>>, <<>>)
-   ELSE IF Contains(t, T_statmech_model) THEN HC("statmech", <<>>, <<>>)
-   ELSE IF Contains(t, T_trans_model) THEN HC("mode", T_trans_model, <<>>)
-   ELSE IF Contains(t, T_vib_model) THEN HC("mode", T_vib_model, <<>>)
-   ELSE IF Contains(t, T_rot_model) THEN HC("mode", T_rot_model, <<>>)
-   ELSE IF Contains(t, T_elec_model) THEN HC("mode", T_elec_model, <<>>)
-   ELSE IF Contains(t, T_nucl_model) THEN HC("mode", T_nucl_model, <<>>)
-   ELSE IF Contains(t, T_vib_wavenumber) THEN HC("vib", <<>>, <<>>)
-   ELSE IF Contains(t, T_vib_outcar) THEN HC("outcar", <<>>, <<>>)
-   ELSE IF Contains(t, T_rot_temperature) THEN HC("rot", <<>>, <<>>)
-   ELSE IF Contains(t, T_nasa) THEN
-        (IF ~(AllDigits(last) /\ Len(last) <= 3) THEN HC("raise", t, <<>>)        \* int() fails
-         ELSE IF Contains(t, T_a_low) THEN HC("alow", <<>>, <<DigitsToInt(last)>>)
-         ELSE IF Contains(t, T_a_high) THEN HC("ahigh", <<>>, <<DigitsToInt(last)>>)
-         ELSE HC("raise", t, <<>>))
-   ELSE IF Contains(t, ListDot) THEN
-        LET h == RemoveAll(t, ListDot)  i == LastIndexOf(h, T_dot)
-        IN HC("list", IF i > 0 THEN SubSeq(h, 1, i - 1) ELSE h, <<>>)
-   ELSE IF Contains(t, DictDot) THEN
-        LET q == Pieces(RemoveAll(t, DictDot))
-        IN IF Len(q) = 2 THEN HC("dict", q[1], q[2]) ELSE HC("raise", t, <<>>)
-   ELSE HC("ordinary", t, <<>>)
-
-\* pandas renames the k-th repetition (k >= 1) of a header text to  text.k
-PandasName(hs, c) == LET k == Cardinality({d \in 1..(c - 1) : hs[d] = hs[c]})
-                     IN IF k = 0 THEN hs[c] ELSE hs[c] \o <<T_dot>> \o NatDigits(k)
-DocClasses(hs) == [c \in 1..Len(hs) |-> DocClass(Trim(hs[c]))]
-ImplClasses(hs) == [c \in 1..Len(hs) |-> ImplClass(Trim(PandasName(hs, c)))]
-
-\* ------------------------------------------------------------------ models and presets
-StatMechCls == ClsV(Q_StatMech)
-EmptyModeCls == ClsV(Q_EmptyMode)
-\* classes of pmutt.statmech.<mode> by the name written in the cell
-ModelTable(key) ==
-   IF key = T_trans_model THEN {<<T_FreeTrans, Q_FreeTrans>>}
-   ELSE IF key = T_vib_model THEN {<<T_HarmonicVib, Q_HarmonicVib>>, <<T_QRRHOVib, Q_QRRHOVib>>,
-                                   <<T_EinsteinVib, Q_EinsteinVib>>, <<T_DebyeVib, Q_DebyeVib>>}
-   ELSE IF key = T_rot_model THEN {<<T_RigidRotor, Q_RigidRotor>>}
-   ELSE IF key = T_elec_model THEN {<<T_GroundStateElec, Q_GroundStateElec>>, <<T_LSR, Q_LSR>>}
-   ELSE IF key = T_nucl_model THEN {<<T_EmptyNucl, Q_EmptyNucl>>}
-   ELSE {}
-ModelKnown(key, name) == Has(ModelTable(key), name) \/ Lower(name) = T_emptymode
-ModelClass(key, name) == IF Has(ModelTable(key), name) THEN ClsV(Get(ModelTable(key), name))
-                         ELSE EmptyModeCls
-PresetNames == {T_idealgas, T_harmonic, T_electronic, T_placeholder, T_constant}
-\* pmutt.statmech.presets without the informational 'required' / 'optional' entries
-Preset(name) ==
-   IF name = T_idealgas THEN
-        {<<T_model, StatMechCls>>, <<T_trans_model, ClsV(Q_FreeTrans)>>,
-         <<T_n_degrees, Num(DecOfInt(3))>>, <<T_vib_model, ClsV(Q_HarmonicVib)>>,
-         <<T_elec_model, ClsV(Q_GroundStateElec)>>, <<T_rot_model, ClsV(Q_RigidRotor)>>}
-   ELSE IF name = T_harmonic THEN
-        {<<T_model, StatMechCls>>, <<T_vib_model, ClsV(Q_HarmonicVib)>>,
-         <<T_elec_model, ClsV(Q_GroundStateElec)>>}
-   ELSE IF name = T_electronic THEN
-        {<<T_model, StatMechCls>>, <<T_elec_model, ClsV(Q_GroundStateElec)>>}
-   ELSE IF name = T_placeholder THEN
-        {<<T_model, StatMechCls>>} \cup {<<k, EmptyModeCls>> : k \in ModeKeys}
-   ELSE IF name = T_constant THEN
-        {<<T_model, StatMechCls>>, <<T_elec_model, ClsV(Q_ConstantMode)>>}
-   ELSE {}
-
-\* ------------------------------------------------------------------ the required result
-ExpectedRow(cl, row) ==
-   LET n == Len(cl)
-       ne == {c \in 1..n : ~IsEmpty(row[c])}
-       Of(k) == {c \in ne : cl[c].cls = k}
-       Vals(S) == LET ss == SortedSeq(S) IN [i \in 1..Len(ss) |-> Scalar(row[ss[i]])]
-       ord == {<<cl[c].a, Scalar(row[c])>> : c \in Of("ordinary")}
-       elem == IF Of("element") \cup Of("formula") = {} THEN {}
-               ELSE {<<T_elements,
-                       DictV({<<cl[c].a, Scalar(row[c])>> : c \in Of("element")}
-                             \cup UNION {FormulaPairs(Trim(row[c].v)) : c \in Of("formula")})>>}
-       vib == IF Of("vib") = {} THEN {} ELSE {<<T_vib_wavenumbers, ListV(Vals(Of("vib")))>>}
-       rot == IF Of("rot") = {} THEN {} ELSE {<<T_rot_temperatures, ListV(Vals(Of("rot")))>>}
-       lists == {<<nm, ListV(Vals({c \in Of("list") : cl[c].a = nm}))>> :
-                    nm \in {cl[c].a : c \in Of("list")}}
-       dicts == {<<nm, DictV({<<cl[c].b, Scalar(row[c])>> : c \in {d \in Of("dict") : cl[d].a = nm}})>> :
-                    nm \in {cl[c].a : c \in Of("dict")}}
-       Vec(k) == VecV([i \in 1..7 |->
-                         IF \E c \in Of(k) : cl[c].b[1] = i - 1
-                         THEN Scalar(row[CHOOSE c \in Of(k) : cl[c].b[1] = i - 1]) ELSE ZeroN])
-       alow == IF Of("alow") = {} THEN {} ELSE {<<T_a_low, Vec("alow")>>}
-       ahigh == IF Of("ahigh") = {} THEN {} ELSE {<<T_a_high, Vec("ahigh")>>}
-       modes == {<<cl[c].a, ModelClass(cl[c].a, Trim(row[c].v))>> : c \in Of("mode")}
-       model == IF Of("mode") \cup Of("statmech") = {} THEN {} ELSE {<<T_model, StatMechCls>>}
-       explicit == ord \cup elem \cup vib \cup rot \cup lists \cup dicts \cup alow \cup ahigh
-                   \cup modes \cup model
-       preset == UNION {{p \in Preset(Lower(Trim(row[c].v))) : ~Has(explicit, p[1])} : c \in Of("statmech")}
-   IN explicit \cup preset
-Expected(sheet) == LET cl == DocClasses(sheet.headers)
-                   IN [r \in 1..Len(sheet.rows) |-> ExpectedRow(cl, sheet.rows[r])]
-
-\* ------------------------------------------------------------------ the quantifier
-CellSuits(cls, cell) ==
-   \/ IsEmpty(cell)
-   \/ /\ cls.cls \in {"element", "vib", "rot", "alow", "ahigh"} /\ cell.t = "n"
-   \/ /\ cls.cls \in {"ordinary", "list", "dict"}
-      /\ (cell.t = "s" => Len(Trim(cell.v)) > 0)
-   \/ /\ cls.cls = "formula" /\ cell.t = "s" /\ FormulaWF(Trim(cell.v))
-   \/ /\ cls.cls = "statmech" /\ cell.t = "s" /\ Lower(Trim(cell.v)) \in PresetNames
-   \/ /\ cls.cls = "mode" /\ cell.t = "s" /\ ModelKnown(cls.a, Trim(cell.v))
-SheetInQuantifier(sheet) ==
-   LET hs == sheet.headers  cl == DocClasses(hs)  n == Len(hs)
-       Cnt(k) == Cardinality({c \in 1..n : cl[c].cls = k})
-       ordK == {cl[c].a : c \in {d \in 1..n : cl[d].cls = "ordinary"}}
-       listK == {cl[c].a : c \in {d \in 1..n : cl[d].cls = "list"}}
-       dictK == {cl[c].a : c \in {d \in 1..n : cl[d].cls = "dict"}}
-       \* headers that may repeat with identical text: vib_wavenumber, rot_temperature, list.name
-       Repeatable(c) == cl[c].cls \in {"vib", "rot"} \/ (cl[c].cls = "list" /\ Len(Pieces(Trim(hs[c]))) = 2)
-   IN /\ n >= 1 /\ Len(sheet.rows) >= 1
-      /\ \A c \in 1..n : cl[c].cls # "outside"
-      /\ \A c \in 1..n, d \in 1..n :
-            c < d =>
-              /\ hs[c] = hs[d] => Repeatable(c) /\ hs[c] = Trim(hs[c])
-              /\ hs[c] # hs[d] /\ cl[c] = cl[d] => cl[c].cls \in {"list", "vib", "rot"}
-              /\ cl[c].cls = "list" /\ cl[c] = cl[d] =>
-                    Len(Pieces(Trim(hs[c]))) = Len(Pieces(Trim(hs[d])))
-      /\ ordK \cap (listK \cup dictK \cup ReservedKeys) = {}
-      /\ listK \cap dictK = {} /\ (listK \cup dictK) \cap (ReservedKeys \cup {T_n_degrees}) = {}
-      /\ Cnt("formula") <= 1 /\ Cnt("statmech") <= 1
-      /\ ~(Cnt("formula") > 0 /\ Cnt("element") > 0)
-      /\ \A r \in 1..Len(sheet.rows) :
-            /\ Len(sheet.rows[r]) = n
-            /\ \A c \in 1..n : CellSuits(cl[c], sheet.rows[r][c])
-      /\ \E c \in 1..n : ~IsEmpty(sheet.rows[Len(sheet.rows)][c])
+EXTENDS ExcelRecords
 
 \* ------------------------------------------------------------------ the reader as a row loop
-CONSTANTS Sheets,       \* the sheets of this configuration (a set)
-          Variant       \* "code" | "hoist" (record created once, outside the loop)
-                        \* | "nuclelec" (nucl_model looked up among the electronic models)
-                        \* | "presetover" (a preset overwrites assigned keys)
-\* sheet: the worksheet being read (never changes); ri, ci: loop counters; rec: the loop-carried
-\* record under construction (thermo_data); out: the list returned; err: an exception escaped
-VARIABLES sheet, pc, ri, ci, rec, out, err
-vars == <<sheet, pc, ri, ci, rec, out, err>>
+CONSTANTS Groups,          \* the sheets of a configuration come in groups (a layout, a row count)
+          GroupSheets(_),  \* the set of sheets of a group
+          Variant          \* "code" | "hoist" (record created once, outside the loop)
+                           \* | "nuclelec" (nucl_model looked up among the electronic models)
+                           \* | "presetover" (a preset overwrites assigned keys)
+\* grp: the group the sheet is taken from; sheet: the worksheet being read (fixed by Open);
+\* cl / im: the documented class and the class the substring chain gives to each column (fixed
+\* by Open); ri, ci: loop counters; rec: the loop-carried record under construction
+\* (thermo_data); out: the list returned; err: an exception escaped
+VARIABLES grp, sheet, cl, im, pc, ri, ci, rec, out, err
+vars == <<grp, sheet, cl, im, pc, ri, ci, rec, out, err>>
 
 NRows == Len(sheet.rows)
 NCols == Len(sheet.headers)
@@ -356,60 +74,55 @@ Dispatch(rc, cls, v) ==
              ELSE base \cup {p \in ps : ~Has(base, p[1])}
      [] OTHER -> rc
 
-Init == /\ sheet \in Sheets
-        /\ pc = "begin" /\ ri = 1 /\ ci = 0 /\ rec = {} /\ out = <<>> /\ err = FALSE
+NoSheet == [headers |-> <<>>, rows |-> <<>>]
+Init == /\ grp \in Groups
+        /\ sheet = NoSheet /\ cl = <<>> /\ im = <<>>
+        /\ pc = "open" /\ ri = 1 /\ ci = 0 /\ rec = {} /\ out = <<>> /\ err = FALSE
+Open == /\ pc = "open"                                   \* pandas.read_excel: the data frame
+        /\ \E s \in GroupSheets(grp) :
+              /\ sheet' = s
+              /\ cl' = DocClasses(s.headers)
+              /\ im' = ImplClasses(s.headers)
+        /\ pc' = "begin"
+        /\ UNCHANGED <<grp, ri, ci, rec, out, err>>
 BeginRow == /\ pc = "begin"
             /\ rec' = IF Variant = "hoist" THEN rec ELSE {}
             /\ ci' = 1 /\ pc' = "cell"
-            /\ UNCHANGED <<sheet, ri, out, err>>
+            /\ UNCHANGED <<grp, sheet, cl, im, ri, out, err>>
 Cell == /\ pc = "cell" /\ ci <= NCols
         /\ LET cell == sheet.rows[ri][ci]
-               cls == ImplClass(Trim(PandasName(sheet.headers, ci)))
                v == Scalar(cell)
            IN IF IsEmpty(cell) THEN rec' = rec /\ err' = err /\ pc' = pc
-              ELSE IF Raises(rec, cls, v) THEN rec' = rec /\ err' = TRUE /\ pc' = "done"
-              ELSE rec' = Dispatch(rec, cls, v) /\ err' = err /\ pc' = pc
+              ELSE IF Raises(rec, im[ci], v) THEN rec' = rec /\ err' = TRUE /\ pc' = "done"
+              ELSE rec' = Dispatch(rec, im[ci], v) /\ err' = err /\ pc' = pc
         /\ ci' = ci + 1
-        /\ UNCHANGED <<sheet, ri, out>>
+        /\ UNCHANGED <<grp, sheet, cl, im, ri, out>>
 EndRow == /\ pc = "cell" /\ ci > NCols
           /\ out' = Append(out, rec)
           /\ ri' = ri + 1
           /\ pc' = IF ri = NRows THEN "done" ELSE "begin"
-          /\ UNCHANGED <<sheet, ci, rec, err>>
-Next == BeginRow \/ Cell \/ EndRow
+          /\ UNCHANGED <<grp, sheet, cl, im, ci, rec, err>>
+Next == Open \/ BeginRow \/ Cell \/ EndRow
 Spec == Init /\ [][Next]_vars
 
 \* ------------------------------------------------------------------ properties (D)
 Done == pc = "done"
 First == pc = "begin" /\ ri = 1                 \* sheet-level properties are evaluated once
 AfterRow == pc \in {"begin", "done"}            \* `out` only changes in EndRow
-RowAtoms(row) == {Scalar(row[k]) : k \in {j \in 1..Len(row) : ~IsEmpty(row[j])}}
-ValueAtoms(v) == IF v.t \in {"n", "s"} THEN {v}
-                 ELSE IF v.t \in {"l", "v"} THEN {v.v[k] : k \in 1..Len(v.v)}
-                 ELSE IF v.t = "d" THEN {p[2] : p \in v.v}
-                 ELSE {}
-RecAtoms(rc) == UNION {ValueAtoms(p[2]) : p \in rc}
-\* atoms that no cell of the row holds but the documented folding creates
-Derived(cl, row) == {ZeroN, Num(DecOfInt(3))}
-                    \cup UNION {{p[2] : p \in FormulaPairs(Trim(row[k].v))} :
-                                  k \in {j \in 1..Len(row) : cl[j].cls = "formula" /\ ~IsEmpty(row[j])}}
-
 NoRaise == ~err
 OneRecordPerRow == Done /\ ~err => Len(out) = NRows
 \* the k-th record is the record of row k (order), and of row k alone (ExpectedRow sees one row)
-RowOrder == AfterRow => LET cl == DocClasses(sheet.headers)
-                        IN \A k \in 1..Len(out) : out[k] = ExpectedRow(cl, sheet.rows[k])
+RowOrder == AfterRow => \A k \in 1..Len(out) : out[k] = ExpectedRow(cl, sheet.rows[k])
 Refines == Done /\ ~err => out = Expected(sheet)
 \* the loop-carried state is empty whenever a row begins ...
 CarriedEmpty == pc = "cell" /\ ci = 1 => rec = {}
 \* ... so nothing of another row can be in a record
-NoLeak == AfterRow => LET cl == DocClasses(sheet.headers)
-                      IN \A k \in 1..Len(out) :
-                            RecAtoms(out[k]) \subseteq RowAtoms(sheet.rows[k]) \cup Derived(cl, sheet.rows[k])
+NoLeak == AfterRow => \A k \in 1..Len(out) :
+                         RecAtoms(out[k]) \subseteq RowAtoms(sheet.rows[k]) \cup Derived(cl, sheet.rows[k])
 NoEmptyCells == AfterRow => \A k \in 1..Len(out) : \A a \in RecAtoms(out[k]) : a.t # "e"
 KeysFunctional == Functional(rec)
 HeaderTexts == {Trim(sheet.headers[k]) : k \in 1..Len(sheet.headers)}
 DispatchDisjoint == First => \A t \in HeaderTexts : Cardinality(Rules(t)) = 1
-ChainAgrees == First => ImplClasses(sheet.headers) = DocClasses(sheet.headers)
+ChainAgrees == First => im = cl
 InQuantifier == First => SheetInQuantifier(sheet)
 =============================================================================
